@@ -53,6 +53,7 @@ def consuming(g):
     if h == "ExtWrap": return consuming(g[1])
     if h == "WithState": return consuming(g[2])
     if h == "Lazy": return consuming(g[1])
+    if h == "Padded": return consuming(g[2])
     if h == "Pratt": return consuming(g[2])
     return False
 
@@ -86,13 +87,14 @@ RECOVER = ["RecoverVia", "RecoverSkipUntil", "RecoverSkipRetry"]
 DECOR = ["Labelled", "MapErr"]
 CTX = ["WithCtx", "IgnoreWithCtx", "ThenWithCtx", "MapCtx", "JustCfg"]
 LEAVES = {"End", "Empty", "Any", "Just", "OneOf", "NoneOf", "Select", "Custom", "JustCfg", "Skip", "NestedDelims"}
+WS = [32, 9]        # the whitespace characters used with (Padded ws a); inputs of such grammars get them in their alphabet
 DELIMS = [(40, 41), (91, 93), (123, 125)]
 sexp_G_HEADS = {"End", "Empty", "Any", "Just", "OneOf", "NoneOf", "Select", "Custom", "Map", "MapWith", "To", "Ignored",
            "ToSpan", "ToSlice", "Filter", "TryMap", "TryMapWith", "Validate", "Then", "IgnoreThen", "ThenIgnore",
            "DelimitedBy", "PaddedBy", "Group", "Or", "Choice", "ChoiceVec", "OrNot", "Not", "AndIs", "Rewind",
            "RepUnit", "Collect", "CollectExactly", "Foldl", "Foldr", "FoldlWith", "FoldrWith", "RecoverVia",
            "RecoverSkipUntil", "RecoverSkipRetry", "Labelled", "MapErr", "WithCtx", "IgnoreWithCtx", "ThenWithCtx",
-           "MapCtx", "JustCfg", "Memo", "Rec", "RecDecl", "Var", "Boxed", "Pratt"}
+           "MapCtx", "JustCfg", "Memo", "Rec", "RecDecl", "Var", "Boxed", "Pratt", "Padded", "ExtWrap", "Lazy", "WithState", "GroupArr"}
 
 class Gen:
     def __init__(self, rng, ctors, alpha=None, no_not=False, mw=None, slices=True):
@@ -209,6 +211,27 @@ class Gen:
         if c == "Boxed": return [c, G()]
         if c in ("NestedIn", "ExtWrap", "Lazy"): return [c, G()]
         if c == "WithState": return [c, self.r.choice([0, 5, 7, 999]), G()]
+        if c == "Padded": return [c, list(WS), G()]
+        if c == "CollectOrNot":
+            # or_not() consumed through the IterParser interface; the item can fail after consuming
+            i = ["IOrNot", self.r.choice([["Then", self.leaf(True), G()], ["Just", self.toks(2, 3)], GC()])]
+            if self.r.random() < 0.3: i = ["IEnum", i]
+            return ["Collect", self.r.choice(["CVec", "CVec", "CCount"]), i]
+        if c == "RepUnitCfg":
+            # a configured repetition used directly as a unit parser (IterConfigure / TryIterConfigure as Parser<()>)
+            lo, hi = self.bounds()
+            return ["RepUnit", ["IRepCfg", GC(), lo, hi, self.r.choice([0, 0, 1, 2, 3, 4, 5, 6, 8])]]
+        if c == "IntoIter":
+            src = self.r.choice([lambda: ["Collect", "CVec", self.it(max(d - 2, 0), unit=True)], lambda: ["OrNot", G()],
+                                 lambda: ["Group", [G() for _ in range(self.r.randint(1, 3))]], G])()
+            i = ["IIntoIter", src]
+            if self.r.random() < 0.3: i = ["IEnum", i]
+            k = self.r.random()
+            if k < 0.35: return ["Collect", self.r.choice(["CVec", "CCount", "CUnit"]), i]
+            if k < 0.6: return ["CollectExactly", self.r.randint(0, 3), i]
+            if k < 0.75: return ["Foldl", G(), i, self.k()]
+            if k < 0.9: return ["Foldr", i, G(), self.k()]
+            return ["RepUnit", ["IIntoIter", src]]
         raise AssertionError(c)
 
     # ----- Pratt tables -----
@@ -268,11 +291,11 @@ class Gen:
             if not isinstance(h, str): return [walk(y) for y in x]
             if h in sexp_G_HEADS:
                 return wrap([h] + [walk_arg(h, i, a) for i, a in enumerate(x[1:])])
-            if h in ("IRep", "ISep", "IEnum", "IMap", "IMapWith", "IOrNot", "IRepCfg", "PInfix", "PPrefix", "PPostfix"):
+            if h in ("IRep", "ISep", "IEnum", "IMap", "IMapWith", "IOrNot", "IRepCfg", "IIntoIter", "PInfix", "PPrefix", "PPostfix"):
                 return [h] + [walk_arg(h, i, a) for i, a in enumerate(x[1:])]
             return x
         def walk_arg(h, i, a):
-            if isinstance(a, list) and a and isinstance(a[0], str) and (a[0] in sexp_G_HEADS or a[0] in ("IRep", "ISep", "IEnum", "IMap", "IMapWith", "IOrNot", "IRepCfg", "PInfix", "PPrefix", "PPostfix")):
+            if isinstance(a, list) and a and isinstance(a[0], str) and (a[0] in sexp_G_HEADS or a[0] in ("IRep", "ISep", "IEnum", "IMap", "IMapWith", "IOrNot", "IRepCfg", "IIntoIter", "PInfix", "PPrefix", "PPostfix")):
                 return walk(a)
             if isinstance(a, str) and a in ("End", "Empty", "Any"): return wrap(a)
             if h in ("Group", "Choice", "ChoiceVec") and isinstance(a, list): return [walk(y) for y in a]
@@ -356,6 +379,9 @@ def sample(rng, g, alpha, ctx=()):
     if h == "WithCtx": return sample(rng, g[2], alpha, tuple(val_toks(g[1])))
     if h in ("Ignored", "ToSpan", "ToSlice", "ExtWrap"): return S(g[1])
     if h == "Lazy": return S(g[1]) + [rng.choice(alpha) for _ in range(rng.randint(0, 2))]
+    if h == "Padded":
+        sp = lambda: [rng.choice(g[1]) for _ in range(rng.choice([0, 0, 1, 2]))]
+        return sp() + S(g[2]) + sp()
     if h in ("TryMap", "TryMapWith"): return S(g[4])
     if h == "Validate": return S(g[3])
     if h in ("Then", "IgnoreThen", "ThenIgnore"): return S(g[1]) + S(g[2])
@@ -430,7 +456,7 @@ def sample_with(rng, g, alpha, ctx, hook):
     if h == "Or": return S(rng.choice([g[1], g[2]]))
     if h in ("Choice", "ChoiceVec"): return S(rng.choice(g[1])) if g[1] else []
     if h == "OrNot": return S(g[1]) if rng.random() < 0.6 else []
-    if h in ("Map", "MapWith", "To", "Filter", "MapCtx", "MapErr", "Memo"): return S(g[2])
+    if h in ("Map", "MapWith", "To", "Filter", "MapCtx", "MapErr", "Memo", "Padded"): return S(g[2])
     if h == "Labelled": return S(g[3])
     if h in ("Ignored", "ToSpan", "ToSlice", "Boxed"): return S(g[1])
     if h == "Collect":
@@ -467,6 +493,7 @@ def sample_it(rng, i, alpha, ctx, exactly=None):
     if h == "IEnum": return sample_it(rng, i[1], alpha, ctx, exactly)
     if h in ("IMap", "IMapWith"): return sample_it(rng, i[2], alpha, ctx, exactly)
     if h == "IOrNot": return sample(rng, i[1], alpha, ctx) if rng.random() < 0.6 else []
+    if h == "IIntoIter": return sample(rng, i[1], alpha, ctx)
     if h in ("IRep", "IRepCfg"):
         lo, hi = i[2], i[3]
         if h == "IRepCfg":
